@@ -464,11 +464,12 @@ func init() {
 		buf := a[1].([]value)
 		n := len(buf)
 		c := p.ctx
-		ax := c.Abs(p.bt(x))
+		ax := p.absTerm(p.bt(x))
 		lim := c.IntC(pow2(uint(8 * n)))
 		if p.fork(c.Ge(ax, lim), "FillBytes fit") {
 			p.targetPanic(fr.caller, "math/big: buffer too small to fit value")
 		}
+		p.noteFits(ax, pow2(uint(8*n)))
 		if x.c != nil {
 			bs := new(big.Int).Abs(x.c).FillBytes(make([]byte, n))
 			for i := range buf {
